@@ -169,6 +169,25 @@ def extract(files):
         for r in L.residue:
             r["file"] = name
         out["residue"] += L.residue
+    # a `local function` is visible in its own body and below its definition only
+    def calls(stmts):
+        for s in stmts:
+            if s[0] == "call":
+                yield s[1]
+            elif s[0] == "for":
+                yield from calls(s[2])
+            elif s[0] == "if":
+                for arm in s[2]:
+                    yield arm[1]
+    seen = set()
+    for fn in out["funcs"]:
+        seen.add(fn["name"])
+        for c in calls(fn["stmts"]):
+            if c not in seen:
+                out["issues"].append("%s: calls %s above its definition (undeclared helper at the call)" % (fn["name"], c))
+    for c in calls(out["main"]):
+        if c not in seen:
+            out["issues"].append("main dissector: calls %s which is never defined (undeclared helper)" % c)
     declared = {d["id"] for d in out["field_decls"]}
 
     def used(stmts):
